@@ -5,7 +5,7 @@ From Coq Require Import Strings.String Strings.Ascii.
 From Coq Require Import List ZArith NArith Bool Lia.
 From Astisub Require Import Kit.Base Kit.Str Kit.Scan Model.Dur Model.Ssa.
 From Astisub Require Import Proofs.VttBase Proofs.ScanProofs Proofs.EolProofs Proofs.SsaFields Proofs.SsaTrim Proofs.SsaRows Proofs.SsaLines
-  Proofs.SsaInfo Proofs.SsaStyles Proofs.SsaEvents Proofs.SsaIgnore.
+  Proofs.SsaInfo Proofs.SsaInfoOrder Proofs.SsaStyles Proofs.SsaEvents Proofs.SsaIgnore.
 Import ListNotations.
 Open Scope N_scope.
 
@@ -101,22 +101,23 @@ Proof.
     cbn [rs_info rs_styles rs_events]. rewrite <- app_assoc. reflexivity.
 Qed.
 
-(* the rendered document: script info, then the styles section (optional), then the events section *)
-Definition rendered_lines (hi : str) (b : ainfo)
+(* the rendered document: script info (comments, then the key lines in the order [keys]), then the styles section
+   (optional), then the events section *)
+Definition rendered_lines (hi : str) (b : ainfo) (keys : list fkey)
     (styles : option (str * str * list (list str * astyle)))
     (he fe : str) (erows : list ((list str * str) * aevent)) : list str :=
-  hi :: info_body_lines b ++
+  hi :: (comment_lines b ++ flat_map (fun f => fline f b) keys) ++
   (match styles with
    | Some (hs, fs, srows) => hs :: (n_format_pfx ++ fs) :: map (fun p : list str * astyle => n_style_pfx ++ join [44] (fst p)) srows
    | None => []
    end) ++
   he :: (n_format_pfx ++ fe) :: map (fun p : (list str * str) * aevent => n_dialogue_pfx ++ join [44] (fst (fst p) ++ [snd (fst p)])) erows.
 
-(* READING A RENDERED DOCUMENT: for every spelling of the three section names, every pair of Format lines (columns in
+(* READING A RENDERED DOCUMENT: for every order of the script info keys, every spelling of the three section names, every pair of Format lines (columns in
    any order, any subset, unknown names, any spacing), every encoding of every cell, the reader returns the script
    info, the styles (by name, the last of equal names winning) and, for every Dialogue row, the item its event denotes *)
-Theorem read_rendered hi b styles he fe erows scols ecols e :
-  section_hdr true hi SInfo -> info_ok b ->
+Theorem read_rendered hi b keys styles he fe erows scols ecols e :
+  section_hdr true hi SInfo -> info_ok b -> (forall f, In f keys) ->
   match styles with
   | Some (hs, fs, srows) => section_hdr false hs SStyles /\ format_value fs scols /\ scols <> [] /\
                             Forall (fun p : list str * astyle => style_row scols (fst p) (snd p)) srows
@@ -125,13 +126,13 @@ Theorem read_rendered hi b styles he fe erows scols ecols e :
   section_hdr false he SEvents -> format_value fe ecols -> ecols <> [] ->
   Forall (fun p : (list str * str) * aevent => event_row ecols (fst (fst p)) (snd (fst p)) (snd p)) erows ->
   let sts := match styles with Some (_, _, srows) => map snd srows | None => [] end in
-  read_ssa_lines (rendered_lines hi b styles he fe erows) e =
+  read_ssa_lines (rendered_lines hi b keys styles he fe erows) e =
   if e then Err EIO
   else Ok (mkAdoc (Some b) (styles_map sts) (map (fun ev => event_item ev (styles_map sts)) (map snd erows))).
 Proof.
-  intros Hhi Hb Hst Hhe Hfe Hecn Herows sts. unfold read_ssa_lines, rendered_lines. cbn [ssa_run].
+  intros Hhi Hb Hkeys Hst Hhe Hfe Hecn Herows sts. unfold read_ssa_lines, rendered_lines. cbn [ssa_run].
   rewrite (section_hdr_step rstate0 true hi SInfo Hhi). unfold rstate0. cbn [rs_fmt rs_info rs_styles rs_events].
-  rewrite ssa_run_app, (info_body_read b [] [] [] Hb), ssa_run_app.
+  rewrite ssa_run_app, (info_read_any_order b keys [] [] [] Hb Hkeys), ssa_run_app.
   assert (Hmid : ssa_run (mkRstate SInfo [] b [] []) false
                    (match styles with
                     | Some (hs, fs, srows) => hs :: (n_format_pfx ++ fs) :: map (fun p : list str * astyle => n_style_pfx ++ join [44] (fst p)) srows
@@ -195,18 +196,19 @@ Qed.
 
 Open Scope string_scope.
 Example x_read :
-  read_ssa_lines (rendered_lines (s2l "[script info]") ex_info0
+  read_ssa_lines (rendered_lines (s2l "[script info]") ex_info0 (rev all_fkeys)
                     (Some (s2l "[V4 STYLES+]", s2l "Bold ,Name,Whatever,  TertiaryColour, Fontsize", [(x_cells, x_st)]))
                     (s2l "[EVENTS]") (s2l "End,Style , Start,Nonsense,Text") [((x_init, x_last), x_ev)]) false =
   Ok (mkAdoc (Some ex_info0) [(s2l "Main", Some x_st)]
              [mkAitem 1500000000%Z 3000000000%Z (Some (s2l "Main")) (Some (mkAevattr [] None None None None None))
                       [mkAline [] [mkArun (s2l "Hello, world") None]; mkAline [] [mkArun (s2l "x") (Some (s2l "{\i1}"))]]]).
 Proof.
-  rewrite (read_rendered _ _ _ _ _ _ x_scols x_ecols false).
+  rewrite (read_rendered _ _ _ _ _ _ _ x_scols x_ecols false).
   - reflexivity.
   - exists (s2l "script info"). split; reflexivity.
   - unfold ex_info0, info_ok. split; [repeat constructor; reflexivity|]. split; [intros k; destruct k; split; reflexivity|].
     split; [intros k v; destruct k; discriminate | discriminate].
+  - intros f. destruct f as [k|k|]; try destruct k; cbn; tauto.
   - split; [exists (s2l "V4 STYLES+"); split; reflexivity|]. split; [split; [discriminate | split; reflexivity]|].
     split; [discriminate|]. constructor; [exact x_style_row | constructor].
   - exists (s2l "EVENTS"). split; reflexivity.
